@@ -55,8 +55,56 @@ def dump(g):
         fmt_list(nodes), adj, cyc, topo, bfs, dfs)
 
 
-def monitor(g, before_adj, op, outcome, mon):
+def ledger_step(ledger, op, outcome):
+    """what the accepted operations so far amount to, kept apart from the graph's own tables:
+    a node once inserted stays with the edges accepted out of it (inserting it again changes
+    nothing), an accepted edge between two present, different nodes is there until it is
+    removed, a refused operation changes nothing"""
+    if outcome != "ok":
+        return
+    if op[0] == "node":
+        ledger.setdefault(op[1], [])
+    elif op[0] == "edge":
+        a, b = op[1], op[2]
+        if a != b and a in ledger and b in ledger and b not in ledger[a]:
+            ledger[a].append(b)
+    else:
+        a, b = op[1], op[2]
+        if a in ledger and b in ledger and b in ledger[a]:
+            ledger[a].remove(b)
+
+
+def monitor(g, before_adj, op, outcome, mon, ledger=None):
     adj = {k: list(v) for k, v in g.adjacency_table.items()}
+    if ledger is not None and outcome != "OutOfFuel":
+        want = {k: sorted(v) for k, v in ledger.items()}
+        got = {k: sorted(v) for k, v in adj.items()}
+        if want != got:
+            mon.append(("insertions-kept",
+                        "after %s the graph holds %s but the accepted insertions are %s"
+                        % (op, adj, ledger)))
+            # the orderings are owed to the accepted insertions, not to what is left of them
+            if _has_cycle(ledger):
+                mon.append(("acyclic", "the accepted insertions contain a cycle after %s: %s"
+                            % (op, ledger)))
+            else:
+                try:
+                    topo = g.topological_sort()
+                    for u in ledger:
+                        for v in ledger[u]:
+                            if u in topo and v in topo and topo.index(u) >= topo.index(v):
+                                mon.append(("toposort", "accepted edge (%s,%s) out of order in %s"
+                                            % (u, v, topo)))
+                    for n in ledger:
+                        if n in g.values:
+                            want_r = sorted(_reach(ledger, n))
+                            for nm, walk in (("bfs", g.bfs_subtree(n)[0]), ("dfs", g.dfs_subtree(n)[0])):
+                                if sorted(walk) != want_r:
+                                    mon.append(("%s-exact" % nm,
+                                                "%s_subtree(%s) = %s, reachable over the accepted edges = %s"
+                                                % (nm, n, walk, want_r)))
+                except (RecursionError, KeyError):
+                    pass
     if _has_cycle(adj):
         mon.append(("acyclic", "graph contains a cycle after %s: %s" % (op, adj)))
     if outcome != "ok" and adj != before_adj:
@@ -104,6 +152,7 @@ def run_case(ops):
     lines = ["dag.reset"]
     out = ["ok"]
     mon = []
+    ledger = {}
     nontrivial = False
     for op in ops:
         before = {k: list(v) for k, v in g.adjacency_table.items()}
@@ -126,7 +175,11 @@ def run_case(ops):
             outcome = "OutOfFuel"
         except Exception:
             outcome = "Exception"
-        monitor(g, before, op, outcome, mon)
+        if outcome == "OutOfFuel":
+            ledger = {k: list(v) for k, v in g.adjacency_table.items()}
+        else:
+            ledger_step(ledger, op, outcome)
+        monitor(g, before, op, outcome, mon, ledger)
         out.append("out=%s %s" % (outcome, dump(g)))
     return Case({"ops": [list(o) for o in ops]}, lines, out, mon, nontrivial)
 
